@@ -57,6 +57,12 @@ def run(ck):
             else:
                 ops.append("g%d:%d" % (rng.randrange(0, 3000), rng.randrange(1, 50)))
         cases.append("intern\t%s\t%s" % (rng.choice(["str", "bytes", "path"]), ",".join(ops)))
+    # byte strings that are not UTF-8 (paths and raw bytes are byte strings), next to their lossy-decoded look-alikes
+    for kind in ("path", "bytes"):
+        for extra in (["g5:1"], ["g32:2", "g0:3"], []):
+            ops = ["i" + b"src\xff".hex(), "i" + "src\ufffd".encode().hex(), "i" + b"src\xff".hex(), "i" + b"\xfe\xfe/a\x80".hex(),
+                   "i" + "\ufffd\ufffd/a\ufffd".encode().hex(), "i" + b"src\xff".hex()] + extra
+            cases.append("intern\t%s\t%s" % (kind, ",".join(ops)))
     # a few very long / very large ones
     big = []
     for _ in range(6 if thorough else 2):
